@@ -237,12 +237,31 @@ func genMemio(r *rng, out *bufio.Writer, n int) {
 			}
 			return r.w16()
 		}
+		val := func() uint8 {
+			if r.chance(25) {
+				return []uint8{0xc7, 0xc7, 0x00}[r.n(3)] // the defaults themselves
+			}
+			return r.b8()
+		}
+		if r.chance(25) {
+			// Equal probe: two maps of the same size that differ in one key; one side may hold the default value there
+			a, b := nv, nv+1
+			fmt.Fprintf(out, "mm %d\nmm %d\n", a, b)
+			for k := r.n(4); k > 0; k-- {
+				ad, v := r.w16(), val()
+				fmt.Fprintf(out, "set %d %04x %02x\nset %d %04x %02x\n", a, ad, v, b, ad, v)
+			}
+			k1, k2 := r.w16(), r.w16()
+			fmt.Fprintf(out, "set %d %04x %02x\nset %d %04x %02x\n", a, k1, val(), b, k2, val())
+			fmt.Fprintf(out, "equal %d %d\nequal %d %d\n", a, b, b, a)
+			fmt.Fprintf(out, "put %d ffff %02x%02x\nput %d 0000 %02x%02x\nequal %d %d\nequal %d %d\n", a, val(), val(), b, val(), val(), a, b, b, a)
+		}
 		nops := 20 + r.n(60)
 		for k := 0; k < nops; k++ {
 			switch r.n(16) {
 			case 0, 1, 2:
 				if i := pick([]string{"dm", "mm"}[r.n(2)]); i >= 0 {
-					fmt.Fprintf(out, "set %d %04x %02x\n", i, addrFor(i), r.b8())
+					fmt.Fprintf(out, "set %d %04x %02x\n", i, addrFor(i), val())
 				}
 			case 3, 4, 5:
 				if i := pick([]string{"dm", "mm"}[r.n(2)]); i >= 0 {
